@@ -145,7 +145,12 @@ func runC05(c *Ctx) {
 		case x < 60 || len(live) == 0:
 			p := ref.Pick(r, pool)
 			ms := randomMethods(r, s)
-			s.Handle(p, ms, randomVia(r, p))
+			via := randomVia(r, p)
+			if ok, pv, _ := s.Handle(p, ms, via); !ok {
+				if _, isErr := pv.(error); !isErr || isRuntimeError(pv) {
+					c.Violate(fmt.Sprintf("Handle (through %s) panicked with a non-error or runtime fault: %T %v", via, pv, pv), map[string]any{"pattern": short(p), "methods": ms})
+				}
+			}
 			ops = append(ops, opRec{Op: "Handle", Pattern: p, Methods: ms})
 		case x < 80:
 			p := ref.Pick(r, live)
